@@ -615,6 +615,17 @@ let do_mgr id ins outs =
     else verdict "mgr" id "ok" tag ""
   | _ -> verdict "mgr" id "diff" "malformed-line" ""
 
+(* ---- engine listen ----
+   listen <id> <naddrs> <busy> <cancelkind> <anybusy> <ext> => <returned> <ms> <errclass> <rebind> *)
+let do_listen id ins outs =
+  match ins, outs with
+  | [na; _busy; kind; anybusy; ext], [returned; ms; cls; rebind] ->
+    let tag = Printf.sprintf "n%s/%s%s" na kind (if anybusy = "1" then "/busy" else "") in
+    let ok = c16_ok (anybusy = "1") (ext = "1") (returned = "1") (rebind = "1") (z_of_int (int_of_string cls)) in
+    if ok then verdict "listen" id "ok" tag ""
+    else verdict "listen" id "spec:C16" tag (Printf.sprintf "returned=%s after %sms errclass=%s rebind=%s" returned ms cls rebind)
+  | _ -> verdict "listen" id "diff" "malformed-line" ""
+
 let () =
   try
     while true do
@@ -629,6 +640,7 @@ let () =
       | "clist" :: id :: rest -> let (i, o) = split_arrow rest in do_clist id i o
       | "rhist" :: id :: rest -> let (i, o) = split_arrow rest in do_rhist id i o
       | "fault" :: id :: rest -> let (i, o) = split_arrow rest in do_fault id i o
+      | "listen" :: id :: rest -> let (i, o) = split_arrow rest in do_listen id i o
       | "mgr" :: id :: rest -> let (i, o) = split_arrow rest in do_mgr id i o
       | "ttl" :: id :: rest -> let (i, o) = split_arrow rest in do_ttl id i o
       | "mdns" :: id :: rest -> let (i, o) = split_arrow rest in do_mdns id i o
